@@ -498,6 +498,8 @@ def _run(tape, helper_dir):
         how = "model c14helper" if tape.chance(1, 2, "helper.as_model") else "import c14helper"
         lines[k:k] = [how, "fault('toplevel')"]
         src1 = "\n".join(lines)
+    global _CUR_PROG
+    _CUR_PROG = prog1
     g2 = dyngen.Gen(tape, FEAT2)
     prog2 = g2.program()
     prog2["mode2D"] = True
@@ -642,6 +644,16 @@ def _run(tape, helper_dir):
                       "env0_tables": {str(k): "".join("1" if b else "0" for b in v) for k, v in envs[0]["tables"].items()}}
         if violations:
             break
+    # consequences of a recorded finding inside the same history: once the scene object itself
+    # has been left changed, later operations on that scene differ from a fresh process
+    K = "overlapping-overrides-of-parallel-scenarios-leave-scene-changed"
+    first = min((v["detail"].get("op_index", 1 << 30) for v in violations if v["detail"].get("finding") == K), default=None)
+    if first is not None:
+        for v in violations:
+            if (v["detail"].get("finding") is None and v["clause"] in ("differs-from-fresh-process", "objects-changed-by-simulation")
+                    and v["detail"].get("op_index", -1) > first):
+                v["detail"]["finding"] = K
+                v["detail"]["consequence_of_op"] = first
     return {
         "violations": violations,
         "digest": digest.hexdigest(),
@@ -665,8 +677,72 @@ def brief(o):
     return s if len(s) < 700 else s[:700] + "..."
 
 
+_CUR_PROG = None  # the DYN program P1 of the run being judged (for structural matchers)
+
+
+def _walk(stmts):
+    for st in stmts or []:
+        yield st
+        op = st[0]
+        if op == "if":
+            yield from _walk(st[2])
+            yield from _walk(st[3])
+        elif op == "loop":
+            yield from _walk(st[2])
+        elif op == "while":
+            yield from _walk(st[1])
+        elif op == "try":
+            yield from _walk(st[1])
+            for h in st[2]:
+                yield from _walk(h[1])
+
+
+def parallel_overlap_props(prog):
+    """Properties of the ego that two operands of one parallel `do A(), B()` both override
+    (directly or through scenarios they invoke): their lifetimes need not be nested."""
+    if not prog or not prog.get("ego"):
+        return set()
+    defs = {sc["name"]: sc for sc in prog["scenarios"]}
+
+    def own(sc):
+        return {st[2] for st in list(sc["setup"]) + list(_walk(sc["compose"])) if st[0] == "override" and st[1] == "ego"}
+
+    def callees(sc):
+        out = []
+        for st in _walk(sc["compose"]):
+            if st[0] == "do":
+                out += [n for n in st[1]]
+            elif st[0] in ("choose", "shuffle"):
+                out += [n for n, _ in st[1]]
+        return [n for n in out if n in defs]
+
+    def closure_props(name, seen=None):
+        seen = set() if seen is None else seen
+        if name in seen or name not in defs:
+            return set()
+        seen.add(name)
+        props = own(defs[name])
+        for c in callees(defs[name]):
+            props |= closure_props(c, seen)
+        return props
+
+    out = set()
+    for sc in prog["scenarios"]:
+        for st in _walk(sc["compose"]):
+            if st[0] == "do" and len(st[1]) >= 2:
+                sets = [closure_props(n) for n in st[1]]
+                for i in range(len(sets)):
+                    for j in range(i + 1, len(sets)):
+                        out |= sets[i] & sets[j]
+    return out
+
+
 def state_finding(clause, d, ops):
     """Call-site matchers for state-leak findings (kept specific on purpose)."""
+    if clause == "objects-changed-by-simulation":
+        path = str((d.get("diff") or {}).get("path", ""))
+        if any(path.endswith("." + pr) for pr in parallel_overlap_props(_CUR_PROG)):
+            return "overlapping-overrides-of-parallel-scenarios-leave-scene-changed"
     if clause == "state-not-at-rest":
         dirty = d.get("dirty", {})
         if set(dirty) == {"currentBehavior"}:
